@@ -94,7 +94,7 @@ func min(a, b int) int {
 
 func runPlan(c *ctx) {
 	c.w.Rule = "a case is non-trivial when the real planner returns a non-empty plan; distinct by the plan skeleton"
-	n := 4000
+	n := 3000
 	if c.thorough {
 		n = 20000
 	}
@@ -547,7 +547,7 @@ func (c *ctx) engineCase(a, b Schema, desc string, o engineOpts) {
 
 func runEngine(c *ctx) {
 	c.w.Rule = "a case is non-trivial when the real differ reports a non-empty change list between the inspected current database and the desired schema; distinct by that list"
-	n := 1800
+	n := 1200
 	if c.thorough {
 		n = 6000
 	}
@@ -573,7 +573,7 @@ func runEngine(c *ctx) {
 
 func runOracle(c *ctx) {
 	c.w.Rule = "a case is non-trivial when the real differ reports a non-empty change list between the inspected current database and the desired schema; distinct by that list"
-	n := 2000
+	n := 1300
 	if c.thorough {
 		n = 40000
 	}
@@ -609,7 +609,7 @@ func runOracle(c *ctx) {
 
 func runUpDown(c *ctx) {
 	c.w.Rule = "a case is non-trivial when the real differ reports a non-empty change list; distinct by that list"
-	n := 1200
+	n := 500
 	if c.thorough {
 		n = 8000
 	}
